@@ -169,12 +169,12 @@ def strays (w : World) (s : Nat) : List Nat :=
       | some ar => (match ar.cell with | some c => !sr.cells.contains c | none => false)
       | none => true
 
-/-- a small history: a space of three cells in a row with capacity 2, two agents in the middle cell, one unplaced -/
+/-- a small history: a grid of three cells in a row with capacity 1, one agent in the middle cell, one in the last, one unplaced -/
 def demo : World :=
-  run init [.newSpace 3 (some 2) true [(0, 1), (1, 0), (1, 2), (2, 1)], .newAgent 0, .newAgent 0, .newAgent 0, .set 4 2, .set 5 2]
+  run init [.newSpace 3 (some 1) true [(0, 1), (1, 0), (1, 2), (2, 1)], .newAgent 0, .newAgent 0, .newAgent 0, .set 4 2, .set 5 3]
 
-example : view demo 0 = some ([(1, 0, some 2, [], [2], 0, some 0), (2, 1, some 2, [4, 5], [1, 3], 0, some 0),
-    (3, 2, some 2, [], [2], 0, some 0)], [(4, 1, some 2), (5, 2, some 2), (6, 3, none)]) := by rfl
+example : view demo 0 = some ([(1, 0, some 1, [], [2], 0, some 0), (2, 1, some 1, [4], [1, 3], 0, some 0),
+    (3, 2, some 1, [5], [2], 0, some 0)], [(4, 1, some 2), (5, 2, some 3), (6, 3, none)]) := by rfl
 
 /-- the hypotheses of the copy theorems hold for it, and the copy exists -/
 example : WF demo ∧ Inv demo := C19_space_reachable _
@@ -187,16 +187,17 @@ def demoCopy (good : Bool) : World :=
   | some p => p.1
   | none => demo
 
-example : view (demoCopy true) 7 = some ([(8, 0, some 2, [], [9], 7, some 7), (9, 1, some 2, [11, 12], [8, 10], 7, some 7),
-    (10, 2, some 2, [], [9], 7, some 7)], [(11, 1, some 9), (12, 2, some 9), (13, 3, none)]) := by rfl
+example : view (demoCopy true) 7 = some ([(8, 0, some 1, [], [9], 7, some 7), (9, 1, some 1, [11], [8, 10], 7, some 7),
+    (10, 2, some 1, [12], [9], 7, some 7)], [(11, 1, some 9), (12, 2, some 10), (13, 3, none)]) := by rfl
 
 example : uidsOf demo [4, 5] = [1, 2] ∧ uidsOf (demoCopy true) [11, 12] = [1, 2] := by decide
 
 /-- **The code before S22 violates the property**: the same cells, capacities, occupancy and connections come back, but
-    the copied agents point to cells (16) that are not cells of the copied space — while the repaired copy has no such agent. -/
+    each copied agent points to a cell (16, 17: the second reconstruction of its cell) that is not a cell of the copied space —
+    while the repaired copy has no such agent.  (One agent per occupied cell: for that case `ghostCopy` is the old code exactly.) -/
 theorem C19_space_ghost_copy_points_outside :
-    view (demoCopy false) 7 = some ([(8, 0, some 2, [], [9], 7, some 7), (9, 1, some 2, [11, 12], [8, 10], 7, some 7),
-      (10, 2, some 2, [], [9], 7, some 7)], [(11, 1, some 16), (12, 2, some 16), (13, 3, none)]) ∧
+    view (demoCopy false) 7 = some ([(8, 0, some 1, [], [9], 7, some 7), (9, 1, some 1, [11], [8, 10], 7, some 7),
+      (10, 2, some 1, [12], [9], 7, some 7)], [(11, 1, some 16), (12, 2, some 17), (13, 3, none)]) ∧
     strays (demoCopy false) 7 = [11, 12] ∧ strays (demoCopy true) 7 = [] :=
   ⟨by rfl, by decide, by decide⟩
 
@@ -246,10 +247,10 @@ theorem C19_space_copy_detached (w : World) (hw : WF w) (s : Nat) (w' : World) (
         have := copy_deps_fresh s hc x hmem
         omega))).view_eq
 
-/-- the two premises of `C19_space_copy_detached` are satisfiable by real work on either side: in the copy, moving an agent,
-    taking one out of its cell and creating one writes fresh objects only; in the original, a refused move into the full
-    cell, a move and a removal write old objects only -/
-example : WritesOnly (fun x => demo.next ≤ x) (demoCopy true) [.set 11 10, .unset 12, .newAgent 7] := by
+/-- the two premises of `C19_space_copy_detached` are satisfiable by real work on either side: in the copy, taking an agent
+    out of its cell, moving another one there and creating one writes fresh objects only; in the original, a refused move
+    into the full cell, a move and a removal write old objects only -/
+example : WritesOnly (fun x => demo.next ≤ x) (demoCopy true) [.unset 12, .set 11 10, .newAgent 7] := by
   simp only [WritesOnly]
   decide
 
@@ -257,12 +258,14 @@ example : WritesOnly (fun x => x < demo.next) (demoCopy true) [.set 6 2, .set 4 
   simp only [WritesOnly]
   decide
 
-example : view (run (demoCopy true) [.set 11 10, .unset 12, .newAgent 7]) 7 =
-    some ([(8, 0, some 2, [], [9], 7, some 7), (9, 1, some 2, [], [8, 10], 7, some 7), (10, 2, some 2, [11], [9], 7, some 7)],
+example : (setCell (demoCopy true) 6 2).2 = .full := by rfl
+
+example : view (run (demoCopy true) [.unset 12, .set 11 10, .newAgent 7]) 7 =
+    some ([(8, 0, some 1, [], [9], 7, some 7), (9, 1, some 1, [], [8, 10], 7, some 7), (10, 2, some 1, [11], [9], 7, some 7)],
       [(11, 1, some 10), (12, 2, none), (13, 3, none), (14, 1, none)]) := by rfl
 
 example : view (run (demoCopy true) [.set 6 2, .set 4 1, .remove 5]) 0 =
-    some ([(1, 0, some 2, [4], [2], 0, some 0), (2, 1, some 2, [], [1, 3], 0, some 0), (3, 2, some 2, [], [2], 0, some 0)],
+    some ([(1, 0, some 1, [4], [2], 0, some 0), (2, 1, some 1, [], [1, 3], 0, some 0), (3, 2, some 1, [], [2], 0, some 0)],
       [(4, 1, some 1), (6, 3, none)]) := by
   rfl
 
